@@ -59,6 +59,7 @@ class Ctx:
         self.t0 = time.time()
         self.tmp = tempfile.mkdtemp(prefix="verif-%s-" % prop)
         self.vh = None
+        self.bins = {}   # binary path -> (pkg, tags, race)
         self.cov = {"states": 0, "transitions": 0, "traces_validated_against_impl": 0, "samples": [],
                     "evaluations": 0, "distinct_nontrivial": 0, "tlc_runs": [], "skipped": {}, "extra": {}}
         self.violations = []   # dicts: key, what, detail, driver info
@@ -95,6 +96,7 @@ class Ctx:
         if p.returncode != 0:
             raise Broken("harness build failed:\n" + p.stderr[-3000:])
         log("built %s in %.1fs" % (nm, time.time() - t))
+        self.bins[out] = (pkg, tags, race)
         return out
 
     def run_vh(self, driver, args, binary=None, timeout=3000, env=None):
@@ -113,10 +115,10 @@ class Ctx:
         res["_stderr"] = p.stderr
         log("driver %s: %d evaluations, %d distinct, %d violation keys, %.1fs" % (
             driver, res["evaluations"], res["distinct_nontrivial"], len(res["extra"].get("violation_counts", {})), time.time() - t))
-        self.merge(res, driver, args)
+        self.merge(res, driver, args, self.bins.get(binary, ("./cmd/vh", "verif", False)))
         return res
 
-    def merge(self, res, driver, args):
+    def merge(self, res, driver, args, binfo=("./cmd/vh", "verif", False)):
         c = self.cov
         c["evaluations"] += res["evaluations"]
         c["distinct_nontrivial"] += res["distinct_nontrivial"]
@@ -136,6 +138,7 @@ class Ctx:
             v = dict(v)
             v["driver"] = driver
             v["args"] = [str(a) for a in args]
+            v["pkg"], v["tags"], v["race"] = binfo
             self.violations.append(v)
 
     # ---------- TLC ----------
@@ -258,7 +261,8 @@ class Ctx:
             h = hashlib.sha1(v["key"].encode()).hexdigest()[:10]
             path = os.path.join(ROOT, "out", "replay", "%s-%s.json" % (self.prop, h))
             json.dump({"property": self.prop, "key": v["key"], "what": v["what"], "driver": v.get("driver"),
-                       "args": v.get("args"), "seed": self.seed, "tier": self.tier, "detail": v.get("detail")},
+                       "args": v.get("args"), "pkg": v.get("pkg", "./cmd/vh"), "tags": v.get("tags", "verif"),
+                       "race": v.get("race", False), "seed": self.seed, "tier": self.tier, "detail": v.get("detail")},
                       open(path, "w"), indent=1, default=str)
             print("VIOLATION property=%s replay=%s" % (self.prop, path))
             print("  key=%s :: %s" % (v["key"], v["what"]))
